@@ -379,7 +379,7 @@ def targets_of(m, n_orig):
 def correspondence(r, cases, by_case, tier):
     import concurrent.futures
     jobs, meta_by_case = [], {}
-    model_budget = 60 if tier == "quick" else 400     # alterations per case evaluated on the model
+    model_budget = 60 if tier == "quick" else 300     # alterations per case evaluated on the model
     layout_checked = 0
     for i, c in enumerate(cases):
         lines = by_case.get(i, [])
@@ -525,7 +525,7 @@ def run(tier, seed, replay=None):
         cases = [d["replay"]["case"]] if "case" in d.get("replay", {}) else []
     else:
         cases = vf.load_corpus(PROP)
-        n = 8 if tier == "quick" else 60
+        n = 8 if tier == "quick" else 40
         cases += [gen_case(r.rng, tier, i) for i in range(n)]
     cases = [f"id={i} {c}" + (" tier=thorough" if tier == "thorough" else "") for i, c in enumerate(cases)]
     try:
